@@ -13,6 +13,24 @@ theorem C13_makeUniqueId (cache : List String) (c : Nat) :
     c ≤ (makeUnique cache (cache.length + 1) c).2 ∧ (makeUnique cache (cache.length + 1) c).1 ∉ cache :=
   makeUnique_fresh cache c
 
+/-- C13-6 (printer): the identifiers `printModel(model, true)` hands out to the `k` elements that lack one are `k`
+    pairwise different identifiers, none of which is present in the model -/
+theorem C13_printer_fresh (existing : List String) (k : Nat) :
+    (freshIds existing k).length = k ∧ (freshIds existing k).Nodup ∧ ∀ x ∈ freshIds existing k, x ∉ existing := by
+  induction k generalizing existing with
+  | zero => simp [freshIds]
+  | succ k ih =>
+    have hf := (makeUnique_fresh existing 0xb4da55).2.2
+    obtain ⟨h1, h2, h3⟩ := ih ((makeUnique existing (existing.length + 1) 0xb4da55).1 :: existing)
+    simp only [freshIds]
+    refine ⟨by simp [h1], ?_, ?_⟩
+    · refine List.nodup_cons.mpr ⟨fun hm => ?_, h2⟩
+      exact h3 _ hm (List.mem_cons_self ..)
+    · intro x hx
+      rcases List.mem_cons.mp hx with rfl | hx
+      · exact hf
+      · exact fun hm => h3 x hx (List.mem_cons_of_mem _ hm)
+
 /-- the rendering of the counter is injective (two counter values never give the same identifier) -/
 theorem C13_rendering_injective (m n : Nat) (h : hexStr m = hexStr n) : m = n := hexStr_inj m n h
 
